@@ -751,4 +751,94 @@ class AppendHdfOutput(_Hdf):
             ("listing-grows-to-all-names", F1.nn(i) == outs.n),
             ("listed-names-kept", z3.ForAll([r], z3.Implies(z3.And(0 <= r, r < nn0), F1.name(i, r) == F0.name(i, r)))),
             ("ghost:other-points", z3.ForAll([q], z3.Implies(q != i, z3.And(POS1[q] == POS0[q], SC1[q] == SC0[q])))),
+            # frame: the records of the other points are untouched
+            ("frame:names-datasets", z3.And(K1.has(sidx(i)), z3.ForAll([nm], z3.Implies(nm != sidx(i), z3.And(K1.has(nm) == K0.has(nm), K1.get(nm) == K0.get(nm)))))),
+            ("frame:scalar-datasets", z3.ForAll([nm], z3.Implies(nm != sidx(i), z3.And(V1.ds.has(nm) == V0.ds.has(nm), V1.ds.get(nm) == V0.ds.get(nm))))),
+            ("frame:sub-groups", z3.ForAll([nm], z3.Implies(nm != aname(i), z3.And(V1.groups.has(nm) == V0.groups.has(nm), V1.groups.get(nm) == V0.groups.get(nm))))),
         ]
+
+
+# ---------------------------------------------------------------------------- point-level round trip (lemmas over the writer's contract)
+class _FD:
+    """A dict view made of free constants (for lemmas stated over a contract's clauses)."""
+
+    def __init__(self, name, T):
+        self.member = z3.Const(name + "_m", z3.ArraySort(T.k.sort(), z3.BoolSort()))
+        self.vals = z3.Const(name + "_v", z3.ArraySort(T.k.sort(), T.v.sort()))
+        self.n = z3.Int(name + "_n")
+
+    def has(self, k):
+        return self.member[k]
+
+    def get(self, k):
+        return self.vals[k]
+
+
+class _NS:
+    def __init__(self, **kw):
+        self.__dict__.update(kw)
+
+
+class _FakeCtx:
+    """The entry/exit states of one call of __add_hdf_output_dataset as free constants: what a caller knows is exactly the
+    contract's requires (checked at the call) and ensures."""
+
+    def __init__(self, with_map=False):
+        mk = lambda tag: _NS(index_dataset=z3.Int("L_i"), output_values=self.outs,  # noqa: E731
+                             keys_group=_NS(ds=_FD(f"L_k{tag}", KG)), values_group=_NS(ds=_FD(f"L_vd{tag}", VD), groups=_FD(f"L_va{tag}", VA)),
+                             output_name_to_idx=_FD("L_idx", IDXMAP) if with_map else None)
+        self.outs = _FD("L_outs", OUTS)
+        self.old, self.new = mk(0), mk(1)
+        self.g = {("old", "h5_pos"): z3.Const("L_pos0", POS_SORT), ("new", "h5_pos"): z3.Const("L_pos1", POS_SORT),
+                  ("old", "h5_sc"): z3.Const("L_sc0", SC_SORT), ("new", "h5_sc"): z3.Const("L_sc1", SC_SORT)}
+        self.with_map = with_map
+
+    def old_ghost(self, name, sort):
+        return self.g[("old", name)]
+
+    def new_ghost(self, name, sort):
+        return self.g[("new", name)]
+
+    def arg(self, name):
+        return getattr(self.old, name)
+
+
+@register
+class PointRoundTripLemmas(Contract):
+    """Round trip at the level of one point, over the CONTRACT of __add_hdf_output_dataset (not its code): the record written for a
+    point that had none DECODES (reader view fhas / fval, see ``Node``) to exactly the names and values of ``output_values``, arrays
+    as arrays and scalars as scalars, and is well formed (pt_wf) - i.e. pt_is(F1, i, output_values)."""
+
+    targets = ()
+    prop = ("C11",)
+    lemma = True
+
+    def lemmas(self):
+        c = _FakeCtx()
+        ct = AddHdfOutputDatasetNoMap()
+        i = c.old.index_dataset
+        outs = c.outs
+        k = z3.Const("k!prt", StrS)
+        hyp = [f for _, f in axioms_common()] + [f for _, f in ct.requires(c)] + [f for _, f in ct.ensures(c)]
+        hyp += [f for _, f in new_point(c)]
+        # type invariants of the map of outputs (dict model): size >= 0, and sorted() lists it (plug_hdf._sorted)
+        j = z3.Int("j!prt")
+        mem = outs.member
+        hyp += [outs.n >= 0,
+                z3.ForAll([j], z3.Implies(z3.And(0 <= j, j < outs.n), z3.And(mem[H.sorted_el(mem, j)], H.sorted_pos(mem, H.sorted_el(mem, j)) == j)), patterns=[H.sorted_el(mem, j)]),
+                z3.ForAll([k], z3.Implies(mem[k], z3.And(0 <= H.sorted_pos(mem, k), H.sorted_pos(mem, k) < outs.n, H.sorted_el(mem, H.sorted_pos(mem, k)) == k)), patterns=[H.sorted_pos(mem, k)])]
+        F1 = node_of(c, "new")
+        H_ = z3.And(*hyp)
+        out = [(f"new-point:{label}", z3.Implies(H_, f)) for label, f in pt_is(F1, i, outs.member, outs.vals) if label != "values"]
+        # the `values` clause of pt_is, by cases on the kind of the value (the two cases are proved from the contract, their
+        # conjunction gives the clause by the definition of fval)
+        nm = z3.Const("nm!prt", StrS)
+        p = F1.pos(i, nm)
+        v = outs.vals[nm]
+        arr_case = z3.ForAll([nm], z3.Implies(z3.And(mem[nm], is_arr(v)), z3.And(F1.isarr(i, p), F1.arrval(i, p) == v)))
+        sc_case = z3.ForAll([nm], z3.Implies(z3.And(mem[nm], z3.Not(is_arr(v))), z3.And(rank(F1.SC[i], p + 1) == rank(F1.SC[i], p) + 1,  # (names the successor term: step + monotonicity)
+                                                                                               z3.Not(F1.isarr(i, p)), F1.scal(i, rank(F1.SC[i], p)) == v)))
+        values = dict(pt_is(F1, i, outs.member, outs.vals))["values"]
+        out += [("new-point:values:array-case", z3.Implies(H_, arr_case)), ("new-point:values:scalar-case", z3.Implies(H_, sc_case)),
+                ("new-point:values", z3.Implies(z3.And(arr_case, sc_case), values))]
+        return out
